@@ -412,7 +412,7 @@ func c12(c *Ctx) {
 	// ---- jobs
 	nseq := 300
 	if !c.Quick() {
-		nseq = 600
+		nseq = 2000
 	}
 	type jobT struct {
 		line string
@@ -430,7 +430,7 @@ func c12(c *Ctx) {
 		"close-outstanding", "close-afterresp", "close-queued"}
 	per := 60
 	if !c.Quick() {
-		per = 150
+		per = 500
 	}
 	for _, k := range kinds {
 		for i := 0; i < per; i++ {
@@ -440,7 +440,7 @@ func c12(c *Ctx) {
 	}
 	nwrap := 2
 	if !c.Quick() {
-		nwrap = 6
+		nwrap = 12
 	}
 	for i := 0; i < nwrap; i++ {
 		seed := c.Rng.Int63n(90000000)
